@@ -280,6 +280,33 @@ pub fn negative_table() -> Vec<Negative> {
             }
         }
     }
+    // named components of a matrix that has no such row / column (the zero based `_mRC` and the one based `_RC` spellings), read,
+    // written and passed as out argument; the twin names the first component
+    for (rows, cols) in [(2usize, 3usize), (3, 2), (2, 4), (4, 2), (4, 3), (3, 4), (1, 3), (3, 1), (2, 2), (3, 3)] {
+        let mt = format!("float{}x{}", rows, cols);
+        for r in 0..4usize {
+            for c in 0..4usize {
+                if r < rows && c < cols {
+                    continue;
+                }
+                for one_based in [false, true] {
+                    let name = |r: usize, c: usize| if one_based { format!("_{}{}", r + 1, c + 1) } else { format!("_m{}{}", r, c) };
+                    let (bad_c, good_c) = (name(r, c), name(0, 0));
+                    for (opname, op) in [("read", "float f = mm.TGT;"), ("assign", "mm.TGT = 2.0f;"), ("out-argument", "sink_out(mm.TGT);"), ("pair", "float2 f = mm._m00TGT;")] {
+                        if opname == "pair" && one_based {
+                            continue;
+                        }
+                        let make = |comp: &str| -> String { format!("void sink_out(out float o) {{ o = 1.0f; }}\nvoid test()\n{{\n    {mt} mm = ({mt})1;\n    {}\n}}\n", op.replace("TGT", comp), mt = mt) };
+                        out.push(Negative {
+                            class: leak(format!("matrix-component-outside-the-matrix:{}:{}:{}", opname, if one_based { "one-based" } else { "zero-based" }, mt)),
+                            bad: make(&bad_c),
+                            twin: make(&good_c),
+                        });
+                    }
+                }
+            }
+        }
+    }
     // aggregate initialisers with more elements than the target has room for (also where the surplus is not even convertible)
     for k in ["bool", "int", "uint", "half", "float", "double"] {
         let v = value_of(k, 1, 1);
